@@ -14,7 +14,7 @@ ASSUMPTIONS = [
     'node text is checked the way the property says to observe it: str(node) against the source slice at '
     'node.position, plus the multiset of (span start, text) of all generator constructs',
 ]
-EXTRA = ('neigh', 'char', 'samples')
+EXTRA = ('neigh', 'char', 'args', 'samples')
 
 
 def check_doc(acc, src, items):
